@@ -90,6 +90,8 @@ def opInstance : Op := fun j => do
   let s ← getState sj
   let D ← getD n sj
   pure (jObj [("coordinates_in_unit_square_fresh_state", jBool (decide (InstanceOK n s))),
+              ("generate_cert", jBool (decide (GenCert n s))),
+              ("is_generate_of_its_draw", jBool (decide (s = generate n s.coords))),
               ("reset_feasible", jBool (decide (Feasible n s))),
               ("distances_ok", jBool (decide (DistOK n D)))])
 
